@@ -1694,7 +1694,7 @@ func (c *Ctx) emptiedDocRule(rule string) {
 // overlayRule: the loader never lets the go command read the file at the output path.
 func (c *Ctx) overlayRule(rule string) {
 	r := c.R
-	r.Rule(rule, "the packages.Config given to packages.Load carries an Overlay computed from the output path: a map with one entry, made only if filepath.EvalSymlinks(<directory of the setup file>) == filepath.Dir(filepath.EvalSymlinks(<absolute output path>)) – the go command reads the directory as it is on disk, however the paths are spelled –, whose key is filepath.Join(<directory of the setup file as spelled>, filepath.Base(<resolved output path>)) – the name the go command, which runs in that directory, gives the file – and whose value is \"package \" + <package name parsed from the setup file (PackageClauseOnly)> – the go command reads the package clause of every file in the directory, so the previous output (truncated inside its package name, or from before a rename) must be presented as an empty file of the setup file's package (finding F26)")
+	r.Rule(rule, "the packages.Config given to packages.Load carries an Overlay computed from the output path: a map with an entry for every directory entry E of the setup file's directory (os.ReadDir(filepath.Dir(filepath.Abs(<setup path>)))) that is the same file as the output path (os.SameFile(os.Stat(<dir>/E), os.Stat(<output path>)) – identity, not spelling: the go command reads the directory as it is on disk, and the output path may be a link of another name, go through a linked directory or through `..`), keyed filepath.Join(<dir>, E.Name()) – the name the go command, which runs in that directory, gives the file – and whose value is \"package \" + <package name parsed from the setup file (PackageClauseOnly)> – the go command reads the package clause of every file in the directory, so the previous output (truncated inside its package name, or from before a rename) must be presented as an empty file of the setup file's package (finding F26)")
 	n := 0
 	for _, fn := range c.P.Funcs() {
 		p := pkgOf(fn)
@@ -1751,16 +1751,11 @@ func (c *Ctx) overlayRule(rule string) {
 							continue
 						}
 						nUpd++
-						// the key names the file the way the go command does: <directory of the setup file as spelled>/<base name of
-						// the output file once links are followed>; the entry is made only if both really are in one directory
+						// every entry of the setup file's directory that IS the file at the output path (by identity, however either is
+						// spelled or linked) is hidden under the name the go command – which lists that directory – gives it
 						absOf := func(p string) func(*core.Term) bool {
 							return func(s *core.Term) bool {
 								return s.Kind == "extract" && s.Name == "0" && s.Args[0].IsCallTo("path/filepath.Abs") && s.Args[0].Args[0].String() == p
-							}
-						}
-						realOf := func(inner func(*core.Term) bool) func(*core.Term) bool {
-							return func(s *core.Term) bool {
-								return s.Kind == "extract" && s.Name == "0" && s.Args[0].IsCallTo("path/filepath.EvalSymlinks") && inner(s.Args[0].Args[0])
 							}
 						}
 						dirOf := func(inner func(*core.Term) bool) func(*core.Term) bool {
@@ -1772,22 +1767,29 @@ func (c *Ctx) overlayRule(rule string) {
 								srcP = "param:" + hp.Name()
 							}
 						}
+						entryName := func(s *core.Term) bool {
+							return (s.Kind == "invoke" || s.Kind == "call") && strings.HasSuffix(s.Name, "DirEntry).Name") && s.Contains(func(x *core.Term) bool {
+								return x.IsCallTo("os.ReadDir") && dirOf(absOf(srcP))(x.Args[0])
+							})
+						}
 						if kc, isKC := mu.Key.(*ssa.Call); isKC && core.CalleeName(&kc.Call) == "path/filepath.Join" && len(kc.Call.Args) == 1 {
 							e0, e1, e2 := c.varargAt(kc.Call.Args[0], 0), c.varargAt(kc.Call.Args[0], 1), c.varargAt(kc.Call.Args[0], 2)
-							okKey = e0 != nil && e1 != nil && e2 == nil && dirOf(absOf(srcP))(e0) && e1.IsCallTo("path/filepath.Base") && realOf(absOf(dstP))(e1.Args[0])
+							okKey = e0 != nil && e1 != nil && e2 == nil && dirOf(absOf(srcP))(e0) && entryName(e1)
 						}
-						sameRealDir := c.M(true, func(t *core.Term) bool {
-							if t.Kind != "binop" || t.Name != "==" {
+						statOf := func(inner func(*core.Term) bool) func(*core.Term) bool {
+							return func(s *core.Term) bool {
+								return s.Kind == "extract" && s.Name == "0" && s.Args[0].IsCallTo("os.Stat") && inner(s.Args[0].Args[0])
+							}
+						}
+						sameFile := c.M(true, func(t *core.Term) bool {
+							if !t.IsCallTo("os.SameFile") {
 								return false
 							}
-							for i := 0; i < 2; i++ {
-								if realOf(dirOf(absOf(srcP)))(t.Args[i]) && dirOf(realOf(absOf(dstP)))(t.Args[1-i]) {
-									return true
-								}
-							}
-							return false
+							isKey := func(x *core.Term) bool { return x.V == mu.Key }
+							isDst := func(x *core.Term) bool { return x.String() == dstP }
+							return (statOf(isKey)(t.Args[0]) && statOf(isDst)(t.Args[1])) || (statOf(isKey)(t.Args[1]) && statOf(isDst)(t.Args[0]))
 						})
-						okKey = okKey && c.ReachOf(mu).Implies(sameRealDir)
+						okKey = okKey && c.ReachOf(mu).Implies(sameFile)
 						v := c.O.Of(mu.Value)
 						okVal = v.Contains(func(s *core.Term) bool { return s.Is("const", `"package "`) }) &&
 							v.Contains(func(s *core.Term) bool {
@@ -1798,7 +1800,7 @@ func (c *Ctx) overlayRule(rule string) {
 					}
 				}
 				r.Check(rule, FnKey(fn)+":Overlay", c.InstrPos(a), nUpd == 1 && okKey && okVal,
-					sprintf("the overlay must map <directory of the setup file as spelled>/<base name of the output file with links followed> to \"package <name of the setup file's package>\", under EvalSymlinks(dir of the setup file) == Dir(EvalSymlinks(output path)): directories compared as spelled leave an output path that goes through a symbolic link visible to the go command (updates %d, key ok %v, value ok %v)", nUpd, okKey, okVal))
+					sprintf("the overlay must map every entry <directory of the setup file>/<entry name> of os.ReadDir(<that directory>) for which os.SameFile(os.Stat(<it>), os.Stat(<output path>)) holds to \"package <name of the setup file's package>\": comparing paths (as spelled, or with links resolved) misses an output path that is itself a link of another name or goes through `..` (updates %d, key ok %v, value ok %v)", nUpd, okKey, okVal))
 			}
 		}
 	}
@@ -1808,12 +1810,12 @@ func (c *Ctx) overlayRule(rule string) {
 // fsReadInventory: module code looks at the file system only at the confirmed sites.
 func (c *Ctx) fsReadInventory(rule string) {
 	r := c.R
-	r.Rule(rule, "file-reading inventory: the calls from module code that read the file system are exactly os.Stat of the two paths and of each file offered to the ParseFile hook, the link resolution (filepath.EvalSymlinks) of the setup file's directory and of the output path for the loader overlay, packages.Load, the package-clause parse of the setup file for the loader overlay, and imports.Process; nothing opens, reads or lists anything else (in particular nothing reads the output path: whatever it holds cannot influence the run)")
+	r.Rule(rule, "file-reading inventory: the calls from module code that read the file system are exactly os.Stat of the two paths and of each file offered to the ParseFile hook, the listing (os.ReadDir) and os.Stat of the entries of the setup file's directory for the loader overlay, packages.Load, the package-clause parse of the setup file for the loader overlay, and imports.Process; nothing opens, reads or lists anything else (in particular nothing reads the output path: whatever it holds cannot influence the run)")
 	// per package, not per function: splitting a function into helpers moves a site without adding one
 	table := map[string]int{
-		"parser:os.Stat": 3, "parser:golang.org/x/tools/go/packages.Load": 1, "parser:go/parser.ParseFile": 1,
-		// lstat/readlink along the two paths, to compare the real directories (F59); opens nothing
-		"parser:path/filepath.EvalSymlinks": 2,
+		"parser:os.Stat": 5, "parser:golang.org/x/tools/go/packages.Load": 1, "parser:go/parser.ParseFile": 1,
+		// the entries of the setup file's directory, each stat'ed and compared by identity with the output path (F59, F63); opens nothing
+		"parser:os.ReadDir": 1,
 		"generator:golang.org/x/tools/imports.Process": 1,
 	}
 	seen := map[string]int{}
@@ -2389,9 +2391,53 @@ func (c *Ctx) nestedArgsRule(rule string) {
 // pointerDescentRule (C06): notations below a struct held by pointer.
 func (c *Ctx) pointerDescentRule(rule string) {
 	r := c.R
-	r.Rule(rule, "descent through pointers: the test that decides member-wise descent and the look-ahead for nested notations look through a pointer to the struct (IsStructType(DerefPtr(T))); with IsStructType(T) a field `Addr *Address` is never descended into, `dst.Addr = src.Addr` is emitted and every notation below it (:skip Addr.Secret, :map … Addr.Zip) is silently ignored")
+	r.Rule(rule, "notations below a struct held by pointer: the candidate handler decides member-wise descent on IsStructType(T), which is false for a pointer, so `Addr *Address` is assigned as a whole and a notation on one of its members (:skip Addr.Secret, :map … Addr.Zip, :literal Addr.Source …) could not be honoured. Either the descent test looks through the pointer (IsStructType(DerefPtr(T))), or the default matcher refuses the combination: its candidate search is reached only if ¬(IsPtr(T) ∧ IsStructType(DerefPtr(T)) ∧ hasNotationUnder(destination)) – the refusal being an error return")
 	n := 0
 	for _, dm := range c.defaultMatchers() {
+		// the refusal in front of the candidate search
+		lhs := ""
+		if len(dm.Params) >= 2 {
+			lhs = dm.Params[1].Name()
+		}
+		isLHS := func(t *core.Term) bool { return (t.Kind == "param" || t.Kind == "fv") && t.Name == lhs }
+		typeOfLHS := func(t *core.Term) bool { return (t.IsCallTo(invExprType) || t.Kind == "invoke" && t.Name == invExprType) && isLHS(t.Args[0]) }
+		notPtr := c.M(false, func(t *core.Term) bool { return t.IsCallTo(fnIsPtr) && typeOfLHS(t.Args[0]) })
+		notStructBelow := c.M(false, func(t *core.Term) bool {
+			return t.IsCallTo(fnIsStruct) && t.Args[0].IsCallTo(fnDerefPtr) && typeOfLHS(t.Args[0].Args[0])
+		})
+		noNotation := c.M(false, func(t *core.Term) bool {
+			return t.Kind == "call" && strings.HasSuffix(t.Name, "assignmentBuilder).hasNotationUnder") && isLHS(t.Args[len(t.Args)-1])
+		})
+		refused := true
+		searches := 0
+		for _, s := range append(c.CallsIn(dm, fnIterMethods, false), c.CallsIn(dm, fnIterFields, false)...) {
+			searches++
+			if d := c.ReachOf(s.Instr); !d.Implies(notPtr, notStructBelow, noNotation) {
+				refused = false
+			}
+		}
+		refused = refused && searches > 0
+		if refused {
+			// … and the refused combination ends in an error, not in a silent nothing
+			hasNotation := c.M(true, func(t *core.Term) bool {
+				return t.Kind == "call" && strings.HasSuffix(t.Name, "assignmentBuilder).hasNotationUnder") && isLHS(t.Args[len(t.Args)-1])
+			})
+			nr := 0
+			for _, ret := range core.Returns(dm) {
+				d := c.ReachOf(ret)
+				if len(d) == 0 || !d.Implies(hasNotation) || len(ret.Results) != 2 {
+					continue
+				}
+				if !d.Implies(c.M(true, func(t *core.Term) bool { return t.IsCallTo(fnIsPtr) && typeOfLHS(t.Args[0]) })) {
+					continue
+				}
+				nr++
+				if !c.O.Of(ret.Results[1]).IsCallTo(fnErrorf) {
+					refused = false
+				}
+			}
+			refused = refused && nr >= 1
+		}
 		for _, af := range dm.AnonFuncs {
 			for _, s := range c.CallsIn(af, fnIsStruct, false) {
 				a := c.O.Of(s.Args()[0])
@@ -2404,7 +2450,7 @@ func (c *Ctx) pointerDescentRule(rule string) {
 				if n > 1 {
 					continue // one finding per handler: the first test stands for all
 				}
-				r.Check(rule, "candidate-handler-of-the-default-matcher:descent-sees-through-pointers", c.Pos(s.Pos()), a.IsCallTo(fnDerefPtr), "member-wise descent is decided on "+a.String()+" without DerefPtr")
+				r.Check(rule, "candidate-handler-of-the-default-matcher:descent-sees-through-pointers", c.Pos(s.Pos()), a.IsCallTo(fnDerefPtr) || refused, "member-wise descent is decided on "+a.String()+" without DerefPtr, and the default matcher does not refuse notations below a pointer-held struct")
 			}
 		}
 	}
